@@ -5,7 +5,7 @@
 -/
 import Lungo.Proofs.SeqInsert
 import Lungo.Proofs.BeqLaws
-namespace Lungo.C01
+namespace Lungo.SeqRef
 open Lungo Lungo.Spec
 
 variable {sch : SchemaEval}
@@ -169,4 +169,4 @@ theorem refines_findOneAndDelete (s : Sys) (h : Handle) (q : Doc) (sort proj : O
     | error e => rfl
     | ok d => rfl
 
-end Lungo.C01
+end Lungo.SeqRef
